@@ -168,23 +168,25 @@ func TestVerif_C05_KZG(t *testing.T) {
 		opens := make([][]opened, len(blobs))
 		r.Parallel(len(blobs), func(bi int) {
 			opens[bi] = make([]opened, len(pts))
+			// go-eth-kzg results are computed outside the cases (later cases and their replays are built from them);
+			// the cases compare them with c-kzg.
+			c1, ce1 := gokzgBlobToCommitment(blobs[bi])
+			commits[bi] = c1
+			bp1, be1 := gokzgComputeBlobProof(blobs[bi], c1)
+			bproofs[bi] = bp1
 			r.Case(c05KCase{Op: "commit+blobproof", Blob: bnames[bi]}, func() error {
-				c1, e1 := gokzgBlobToCommitment(blobs[bi])
 				c2, e2 := ckzgBlobToCommitment(blobs[bi])
-				if e1 != nil || e2 != nil || c1 != c2 {
-					return fmt.Errorf("BlobToCommitment(%s): gokzg (%x,%v) ckzg (%x,%v)", bnames[bi], c1, e1, c2, e2)
+				if ce1 != nil || e2 != nil || c1 != c2 {
+					return fmt.Errorf("BlobToCommitment(%s): gokzg (%x,%v) ckzg (%x,%v)", bnames[bi], c1, ce1, c2, e2)
 				}
-				commits[bi] = c1
-				p1, e1 := gokzgComputeBlobProof(blobs[bi], c1)
 				p2, e2 := ckzgComputeBlobProof(blobs[bi], c1)
-				if e1 != nil || e2 != nil || p1 != p2 {
-					return fmt.Errorf("ComputeBlobProof(%s): gokzg (%x,%v) ckzg (%x,%v)", bnames[bi], p1, e1, p2, e2)
+				if be1 != nil || e2 != nil || bp1 != p2 {
+					return fmt.Errorf("ComputeBlobProof(%s): gokzg (%x,%v) ckzg (%x,%v)", bnames[bi], bp1, be1, p2, e2)
 				}
-				bproofs[bi] = p1
-				if e := gokzgVerifyBlobProof(blobs[bi], c1, p1); e != nil {
+				if e := gokzgVerifyBlobProof(blobs[bi], c1, bp1); e != nil {
 					return fmt.Errorf("gokzg rejects the genuine blob proof: %v", e)
 				}
-				if e := ckzgVerifyBlobProof(blobs[bi], c1, p1); e != nil {
+				if e := ckzgVerifyBlobProof(blobs[bi], c1, bp1); e != nil {
 					return fmt.Errorf("ckzg rejects the genuine blob proof: %v", e)
 				}
 				return nil
@@ -192,20 +194,20 @@ func TestVerif_C05_KZG(t *testing.T) {
 			r.Distinct("commit/" + bnames[bi])
 			r.Outcome("commitment_and_blob_proof_identical")
 			for pi, z := range pts {
+				p1, y1, e1 := gokzgComputeProof(blobs[bi], z)
+				opens[bi][pi] = opened{p1, y1, e1 == nil}
 				r.Case(c05KCase{Op: "computeproof", Blob: bnames[bi], Pt: pnames[pi]}, func() error {
-					p1, y1, e1 := gokzgComputeProof(blobs[bi], z)
 					p2, y2, e2 := ckzgComputeProof(blobs[bi], z)
 					if e1 != nil || e2 != nil || p1 != p2 || y1 != y2 {
 						return fmt.Errorf("ComputeProof(%s, z=%s): gokzg (%x,%x,%v) ckzg (%x,%x,%v)", bnames[bi], pnames[pi], p1, y1, e1, p2, y2, e2)
 					}
-					opens[bi][pi] = opened{p1, y1, true}
 					return nil
 				})
 				r.Distinct("open/" + bnames[bi] + "/" + pnames[pi])
 				r.Outcome("proof_and_claim_identical")
 			}
 		})
-		if r.Violations() > 0 {
+		if r.Violations() > 0 && !r.Replaying() {
 			return
 		}
 
@@ -415,9 +417,12 @@ func TestVerif_C05_KZG(t *testing.T) {
 		r.Bound("cell_proof_blobs", len(cellBlobs))
 		r.Parallel(len(cellBlobs), func(ci int) {
 			bi := cellBlobs[ci]
+			p1, e1 := gokzgComputeCellProofs(blobs[bi]) // outside the case, see above
 			var proofs []Proof
+			if e1 == nil && len(p1) == CellProofsPerBlob {
+				proofs = p1
+			}
 			r.Case(c05KCase{Op: "computecellproofs", Blob: bnames[bi]}, func() error {
-				p1, e1 := gokzgComputeCellProofs(blobs[bi])
 				p2, e2 := ckzgComputeCellProofs(blobs[bi])
 				if e1 != nil || e2 != nil || len(p1) != CellProofsPerBlob || len(p2) != CellProofsPerBlob {
 					return fmt.Errorf("ComputeCellProofs(%s): gokzg (%d,%v) ckzg (%d,%v)", bnames[bi], len(p1), e1, len(p2), e2)
@@ -427,7 +432,6 @@ func TestVerif_C05_KZG(t *testing.T) {
 						return fmt.Errorf("ComputeCellProofs(%s)[%d]: gokzg %x ckzg %x", bnames[bi], i, p1[i], p2[i])
 					}
 				}
-				proofs = p1
 				return nil
 			})
 			r.Outcome("cell_proofs_identical")
